@@ -48,6 +48,29 @@ func c10(r []rune) {
 	nd.Observe(errStr(err))
 }
 
+// c10Transient: the reader fails exactly once at a symbolic position
+// (consuming nothing) and then recovers. The failure must still be reported.
+func c10Transient(r []rune) {
+	s := NewScanner(r)
+	s.FailAt = nd.IntRange(0, len(r))
+	s.Once = true
+	_, _, err := parser.ParseCommands(nil, "src", s)
+	failed := s.Failed
+	s.Frozen = true
+	nd.Drain()
+	if !failed {
+		return
+	}
+	nd.Cover("fault")
+	nd.Assert(err != nil, "a transient read fault is not reported as success")
+	if err != nil {
+		nd.Assert(isErr(err, ErrInjected), "the error returned is the reader's error, not a made-up syntax error")
+	}
+}
+
+func C10_Transient_T0() { c10Transient([]rune(Templates[nd.Choice(len(Templates))])) }
+func C10_Transient_F3() { c10Transient(freeRunes(3, true)) }
+
 func C10_F2() { c10(freeRunes(2, false)) }
 func C10_F3() { c10(freeRunes(3, true)) }
 
